@@ -12,12 +12,9 @@ from . import c15_canon as canon
 
 
 
-CUSTOM_OPS = "C15-forward-refs-custom-operations"
-
-
-def plugin_sx(c, variant="forward"):
+def plugin_sx(c):
     return {"S": [Sym("shorter"), "fragments"], "E": [Sym("extract"), "operations"],
-            "F": Sym(variant), "N": Sym("noreimports"), "I": Sym("identity")}[c]
+            "F": Sym("forward"), "N": Sym("noreimports"), "I": Sym("identity")}[c]
 
 
 def real_canonical(files):
@@ -75,11 +72,8 @@ def run(ctx, cases):
             run.broken("K1 canonicaliser", f"unplugged package of seed {case.sc.seed} unreadable: {type(exc).__name__}: {exc}")
             continue
         for cfg in case.configs:
-            # the model of ClientForwardRefs has two variants (the code as found raises KeyError on
-            # `self.get_data(..)` of the custom-operation methods; the proposed fix skips it)
-            for variant in (("forward", "forward-lenient") if "F" in cfg else ("forward",)):
-                cmds.append([Sym("generate"), [plugin_sx(c, variant) for c in cfg], enc])
-                meta.append((case, cfg, variant))
+            cmds.append([Sym("generate"), [plugin_sx(c) for c in cfg], enc])
+            meta.append((case, cfg, "model"))
     results = model.batch("C15", cmds, chunk=8) if cmds else []
     verdict = {}
     for (case, cfg, variant), res in zip(meta, results):
@@ -114,11 +108,6 @@ def run(ctx, cases):
         if v["real"] == "fails" and oks:
             # both sides refuse: generation with this plugin list crashes, as the faithful model predicts
             run.dist("k1", "agree-on-failure")
-            if "F" in cfg and case.sc.config.get("enable_custom_operations"):
-                run.finding(CUSTOM_OPS, f"K1: model (code as found) and generator both fail for {cfg!r} with enable_custom_operations",
-                            {"seed": case.sc.seed, "configuration": cfg})
-        if "F" in cfg and oks:
-            run.dist("k1_forward_refs_variant", "+".join(oks))
         if not oks:
             run.violation(f"K1: model and generator disagree for plugins {cfg!r} (seed {case.sc.seed}): "
                           + json.dumps(v["variants"])[:900],
